@@ -384,6 +384,18 @@ def check_property(prop, tier, seed, only=None):
                 for k, v in r["stats"].items():
                     agg["stats"][f"{ename}.{k}"] = v
                 agg["samples"] += r["samples"][:4]
+        # coverage floor: a run that compares or judges far fewer cases than the check normally does (an engine
+        # whose generator silently skipped its inputs, e.g. reference tools refusing every image) must not pass
+        # vacuously. Floors are half of the quick-tier numbers recorded when lib/floors.json was written.
+        if hok and not only:
+            try:
+                fl = json.load(open(os.path.join(VERIF, "lib", "floors.json"))).get(prop, {})
+            except Exception:
+                fl = {}
+            oc = sum(v for k, v in agg["stats"].items() if k.endswith(".oracle_cases"))
+            if agg["cases"] < fl.get("model_vs_impl", 0) or oc < fl.get("oracle", 0):
+                problems.append(("coverage", f"only {agg['cases']} model-vs-impl cases and {oc} oracle cases were produced "
+                                             f"(floor {fl.get('model_vs_impl', 0)} / {fl.get('oracle', 0)}): the engines did not exercise what this check claims"))
         if mismatches:
             problems.append(("correspondence", f"{len(mismatches)} case(s) where model and implementation differ; first: {json.dumps(mismatches[0])[:1500]}"))
 
